@@ -57,6 +57,16 @@ pub fn gen_model(rng: &mut Rng, version: M2Version) -> (M2Model, Vec<Tr>) {
     }
     m.key_bone_lookup = (0..nb as u16).collect();
     for _ in 0..count(rng) { m.vertices.push(M2Vertex { position: C3Vector { x: f(rng), y: f(rng), z: f(rng) }, bone_weights: [255, 0, 0, 0], bone_indices: [rng.below(nb as u64) as u8, 0, 0, 0], normal: C3Vector { x: 0.0, y: 0.0, z: 1.0 }, tex_coords: C2Vector { x: f(rng), y: f(rng) }, tex_coords2: Some(C2Vector { x: f(rng), y: f(rng) }) }); }
+    // textures: file-backed ones with a name (count includes the terminator, as in shipped files) and nameless typed ones
+    for k in 0..count(rng) {
+        let named = rng.chance(2, 3);
+        let name = format!("World\\Textures\\{}_{k}.blp", "t".repeat(rng.range(1, 12) as usize));
+        let fnm = if named { wow_m2::common::M2ArrayString { string: wow_m2::common::FixedString { data: name.into_bytes() }, array: M2Array::new(0, 0x9000 + 0x100 * k as u32) } } else { wow_m2::common::M2ArrayString { string: wow_m2::common::FixedString { data: vec![] }, array: M2Array::new(0, 0) } };
+        let mut fnm = fnm; if named { fnm.array.count = fnm.string.data.len() as u32 + 1; }
+        let mut t = wow_m2::chunks::texture::M2Texture::new(if named { wow_m2::chunks::texture::M2TextureType::Hardcoded } else { wow_m2::chunks::texture::M2TextureType::Body }, fnm);
+        t.flags = wow_m2::chunks::texture::M2TextureFlags::from_bits_truncate(rng.below(4) as u32);
+        m.textures.push(t);
+    }
     for _ in 0..count(rng) { m.materials.push(M2Material::new(M2BlendMode::OPAQUE)); }
     m.raw_data.transparency_lookup_table = vec![0];
     for _ in 0..count(rng) { m.transparency_animations.push(M2TransparencyAnimation::new()); }
@@ -65,7 +75,9 @@ pub fn gen_model(rng: &mut Rng, version: M2Version) -> (M2Model, Vec<Tr>) {
         ev.data = rng.below(500) as u32;
         if rng.chance(1, 2) { let n = rng.range(1, 4) as usize; let times: Vec<u32> = (0..n as u32).map(|j| j * 100 + rng.below(90) as u32).collect(); let off = 0x3000 + 0x100 * k as u32;
             ev.times = M2Array::new(n as u32, off);
-            m.raw_data.event_data.push(EventRaw { event_index: k, ranges: Vec::new(), original_ranges_offset: 0, timestamps: u32s(&times), original_timestamps_offset: off }); }
+            // per-animation ranges (the older layout keeps them next to the time line)
+            let (rb, ro) = if pre && rng.chance(1, 2) { let nr = rng.range(1, 3) as usize; let r: Vec<u32> = (0..2 * nr as u32).map(|j| j * 7 + rng.below(5) as u32).collect(); ev.ranges = M2Array::new(nr as u32, off + 0x80); (u32s(&r), off + 0x80) } else { (Vec::new(), 0) };
+            m.raw_data.event_data.push(EventRaw { event_index: k, ranges: rb, original_ranges_offset: ro, timestamps: u32s(&times), original_timestamps_offset: off }); }
         m.events.push(ev);
     }
     for k in 0..count(rng) {
@@ -123,9 +135,10 @@ fn canon(m: &M2Model, bytes: &[u8]) -> Vec<(String, String)> {
         ("key bone lookup".into(), format!("{:?}", m.key_bone_lookup)),
         ("vertices".into(), format!("{:?}", m.vertices.iter().map(|v| (v.position.x.to_bits(), v.position.y.to_bits(), v.position.z.to_bits(), v.bone_weights, v.bone_indices, v.tex_coords.x.to_bits(), v.tex_coords.y.to_bits(), v.tex_coords2.map(|t| (t.x.to_bits(), t.y.to_bits())))).collect::<Vec<_>>())),
         ("materials".into(), format!("{}", m.materials.len())),
+        ("textures".into(), format!("{:?}", m.textures.iter().map(|t| (t.texture_type as u32, t.flags.bits(), String::from_utf8_lossy(&t.filename.string.data).to_string())).collect::<Vec<_>>())),
         ("transparency".into(), format!("{}", m.transparency_animations.len())),
-        ("events".into(), format!("{:?}", m.events.iter().map(|e| (e.identifier, e.data, e.bone_index, hex(&slice(bytes, e.times.offset, e.times.count as usize * 4)))).collect::<Vec<_>>())),
-        ("preserved event times".into(), format!("{:?}", m.raw_data.event_data.iter().map(|e| (e.event_index, hex(&e.timestamps))).collect::<Vec<_>>())),
+        ("events".into(), format!("{:?}", m.events.iter().map(|e| (e.identifier, e.data, e.bone_index, hex(&slice(bytes, e.times.offset, e.times.count as usize * 4)), hex(&slice(bytes, e.ranges.offset, e.ranges.count as usize * 8)))).collect::<Vec<_>>())),
+        ("preserved event times".into(), format!("{:?}", m.raw_data.event_data.iter().map(|e| (e.event_index, hex(&e.timestamps), hex(&e.ranges))).collect::<Vec<_>>())),
         ("attachments".into(), format!("{:?}", m.attachments.iter().map(|a| (a.id, a.bone_index, a.position.x.to_bits(), a.position.y.to_bits(), a.position.z.to_bits(), hex(&slice(bytes, a.scale_animation.track.timestamps.offset, a.scale_animation.track.timestamps.count as usize * 4)), hex(&slice(bytes, a.scale_animation.track.values.array.offset, a.scale_animation.track.values.array.count as usize * 4)))).collect::<Vec<_>>())),
         ("preserved attachment key frames".into(), format!("{:?}", m.raw_data.attachment_animation_data.iter().map(|a| (a.attachment_index, hex(&a.timestamps), hex(&a.values))).collect::<Vec<_>>())),
         ("cameras".into(), format!("{:?}", m.cameras.iter().map(|c| { let k = |ts: &M2Array<u32>, vs: (u32, u32), w: usize| format!("{}/{}", hex(&slice(bytes, ts.offset, ts.count as usize * 4)), hex(&slice(bytes, vs.1, vs.0 as usize * w)));
@@ -145,11 +158,11 @@ fn expected(m: &M2Model, tracks: &[Tr]) -> Vec<(String, String)> {
         None => format!("{:?}/-/-/{:?}", t.base.interpolation_type, t.ranges.as_ref().map(|_| "-".to_string())) };
     let mut v = canon(m, &[]);
     v[2].1 = format!("{:?}", m.bones.iter().enumerate().map(|(i, b)| (b.bone_id, b.parent_bone, b.flags.bits(), (b.pivot.x.to_bits(), b.pivot.y.to_bits(), b.pivot.z.to_bits()), tr(i, TrackType::Translation, &b.translation), tr(i, TrackType::Scale, &b.scale))).collect::<Vec<_>>());
-    v[8].1 = format!("{:?}", m.events.iter().enumerate().map(|(i, e)| (e.identifier, e.data, e.bone_index, m.raw_data.event_data.iter().find(|r| r.event_index == i).map(|r| hex(&r.timestamps)).unwrap_or_else(|| "-".into()))).collect::<Vec<_>>());
-    v[12].1 = format!("{:?}", m.cameras.iter().enumerate().map(|(i, c)| { let k = |tt: CameraTrackType| m.raw_data.camera_animation_data.iter().find(|r| r.camera_index == i && r.track_type == tt).map(|r| format!("{}/{}", hex(&r.timestamps), hex(&r.values))).unwrap_or_else(|| "-/-".into());
+    v[9].1 = format!("{:?}", m.events.iter().enumerate().map(|(i, e)| (e.identifier, e.data, e.bone_index, m.raw_data.event_data.iter().find(|r| r.event_index == i).map(|r| hex(&r.timestamps)).unwrap_or_else(|| "-".into()), m.raw_data.event_data.iter().find(|r| r.event_index == i).map(|r| hex(&r.ranges)).unwrap_or_else(|| "-".into()))).collect::<Vec<_>>());
+    v[13].1 = format!("{:?}", m.cameras.iter().enumerate().map(|(i, c)| { let k = |tt: CameraTrackType| m.raw_data.camera_animation_data.iter().find(|r| r.camera_index == i && r.track_type == tt).map(|r| format!("{}/{}", hex(&r.timestamps), hex(&r.values))).unwrap_or_else(|| "-/-".into());
             (c.camera_type, c.fov.to_bits(), c.far_clip.to_bits(), c.near_clip.to_bits(), (c.position_base.x.to_bits(), c.position_base.y.to_bits(), c.position_base.z.to_bits()), (c.target_position_base.x.to_bits(), c.target_position_base.y.to_bits(), c.target_position_base.z.to_bits()),
              k(CameraTrackType::Position), k(CameraTrackType::TargetPosition), k(CameraTrackType::Roll)) }).collect::<Vec<_>>());
-    v[10].1 = format!("{:?}", m.attachments.iter().enumerate().map(|(i, a)| { let r = m.raw_data.attachment_animation_data.iter().find(|r| r.attachment_index == i); (a.id, a.bone_index, a.position.x.to_bits(), a.position.y.to_bits(), a.position.z.to_bits(), r.map(|r| hex(&r.timestamps)).unwrap_or_else(|| "-".into()), r.map(|r| hex(&r.values)).unwrap_or_else(|| "-".into())) }).collect::<Vec<_>>());
+    v[11].1 = format!("{:?}", m.attachments.iter().enumerate().map(|(i, a)| { let r = m.raw_data.attachment_animation_data.iter().find(|r| r.attachment_index == i); (a.id, a.bone_index, a.position.x.to_bits(), a.position.y.to_bits(), a.position.z.to_bits(), r.map(|r| hex(&r.timestamps)).unwrap_or_else(|| "-".into()), r.map(|r| hex(&r.values)).unwrap_or_else(|| "-".into())) }).collect::<Vec<_>>());
     v
 }
 
@@ -228,6 +241,36 @@ pub fn run(ctx: &mut Ctx) {
                 if let Some(r) = &t.ranges { blobs.push(format!("{}:{}", r.0, r.1.len())); got.push(pt.ranges.as_ref().map(|x| x.offset).unwrap_or(0).to_string()); }
             }
             ctx.out.case(&format!("c13reloc {start} {}", blobs.join(",")), &got.join(","));
+        }
+        // the other sections with preserved key frames use the same relocation scheme: ranges, timestamps, values of each
+        // preserved entry in order, one slot per distinct original offset, starting where the first one lands
+        {
+            let mut secs: Vec<(&str, Vec<((u32, usize), u32)>)> = vec![];   // (section, [((original offset, length), offset found in the parsed file)])
+            let mut ev = vec![];
+            for r in &model.raw_data.event_data { if let Some(e) = parsed.events.get(r.event_index) {
+                if !r.ranges.is_empty() { ev.push(((r.original_ranges_offset, r.ranges.len()), e.ranges.offset)); }
+                if !r.timestamps.is_empty() { ev.push(((r.original_timestamps_offset, r.timestamps.len()), e.times.offset)); } } }
+            secs.push(("events", ev));
+            let mut at = vec![];
+            for r in &model.raw_data.attachment_animation_data { if let Some(a) = parsed.attachments.get(r.attachment_index) {
+                if !r.interpolation_ranges.is_empty() { at.push(((r.original_ranges_offset, r.interpolation_ranges.len()), a.scale_animation.track.interpolation_ranges.offset)); }
+                if !r.timestamps.is_empty() { at.push(((r.original_timestamps_offset, r.timestamps.len()), a.scale_animation.track.timestamps.offset)); }
+                if !r.values.is_empty() { at.push(((r.original_values_offset, r.values.len()), a.scale_animation.track.values.array.offset)); } } }
+            secs.push(("attachments", at));
+            let mut cm = vec![];
+            for r in &model.raw_data.camera_animation_data { if let Some(c) = parsed.cameras.get(r.camera_index) {
+                let (ir, ts, vs) = match r.track_type { CameraTrackType::Position => (c.position_animation.track.interpolation_ranges.offset, c.position_animation.track.timestamps.offset, c.position_animation.track.values.array.offset),
+                    CameraTrackType::TargetPosition => (c.target_position_animation.track.interpolation_ranges.offset, c.target_position_animation.track.timestamps.offset, c.target_position_animation.track.values.array.offset),
+                    _ => (c.roll_animation.track.interpolation_ranges.offset, c.roll_animation.track.timestamps.offset, c.roll_animation.track.values.array.offset) };
+                if !r.interpolation_ranges.is_empty() { cm.push(((r.original_ranges_offset, r.interpolation_ranges.len()), ir)); }
+                if !r.timestamps.is_empty() { cm.push(((r.original_timestamps_offset, r.timestamps.len()), ts)); }
+                if !r.values.is_empty() { cm.push(((r.original_values_offset, r.values.len()), vs)); } } }
+            secs.push(("cameras", cm));
+            for (name, v) in secs { if v.is_empty() { continue; }
+                let start = v[0].1;
+                ctx.out.case(&format!("c13reloc {start} {}", v.iter().map(|((o, l), _)| format!("{o}:{l}")).collect::<Vec<_>>().join(",")), &v.iter().map(|(_, g)| g.to_string()).collect::<Vec<_>>().join(","));
+                ctx.out.stat(&format!("c13.reloc.{name}"));
+            }
         }
         // conversion: to the same version nothing changes; to another version the shared content stays
         let to = VERSIONS[((k / 5) % 5) as usize];
